@@ -302,3 +302,37 @@ func (s *Server) NumConns() int {
 	}
 	return n
 }
+
+// ResetAllConns closes every connection abortively (SO_LINGER 0 => TCP reset).
+func (s *Server) ResetAllConns() {
+	s.mu.Lock()
+	ids := make([]int, 0, len(s.conns))
+	for id := range s.conns {
+		ids = append(ids, id)
+	}
+	s.mu.Unlock()
+	for _, id := range ids {
+		s.mu.Lock()
+		c := s.conns[id]
+		s.mu.Unlock()
+		if tc, ok := c.(*net.TCPConn); ok {
+			_ = tc.SetLinger(0)
+		}
+		s.CloseConn(id)
+	}
+}
+
+// PushReconnectAll sends the server's close notification (request id 0, result
+// description "_reconnect_") on every open connection.
+func (s *Server) PushReconnectAll() {
+	s.mu.Lock()
+	ids := make([]int, 0, len(s.conns))
+	for id := range s.conns {
+		ids = append(ids, id)
+	}
+	s.mu.Unlock()
+	for _, id := range ids {
+		pkt := EncodeReply(1, 0, 0, 0, "_reconnect_", 0, nil)
+		_ = s.WriteRaw(id, pkt, 0, 0, "reconnect-push")
+	}
+}
